@@ -21,7 +21,7 @@ func init() {
 	register(&Check{
 		ID:    "C16",
 		Level: "model_checking",
-		Rule: "exhaustive enumeration of byte strings: every length 0..N (N=300 quick, 700 thorough) x {position-tagged, zeros, 0xFF, and one non-zero byte walked through every position (values 0x01/0x80/0xFF)}; " +
+		Rule: "exhaustive enumeration of byte strings: every length 0..N (N=300 quick, 2000 thorough) x {position-tagged, zeros, 0xFF, and one non-zero byte walked through every position (values 0x01/0x80/0xFF)}; thorough also two non-zero bytes through every pair of positions at lengths 116, 117, 132, 248, 249; " +
 			"and of field values: boundary sets for every integer field x 32-byte patterns x field sizes {0,31,32,33} x body lengths; states = distinct inputs, transitions = implementation calls; " +
 			"distinct_nontrivial = distinct inputs that exercise a field boundary or an error path",
 		Assumptions: []string{"refcodec is a correct reading of the layout in the property statement"},
@@ -40,7 +40,7 @@ func c16Jobs(tier string) []Job {
 	N := 300
 	vals := []byte{0x01}
 	if tier == "thorough" {
-		N = 700
+		N = 2000
 		vals = []byte{0x01, 0x80, 0xFF}
 	}
 	var jobs []Job
@@ -56,6 +56,27 @@ func c16Jobs(tier string) []Job {
 				c16DecodeLen(r, L, vals)
 			}
 		}})
+	}
+	if tier == "thorough" {
+		// two non-zero bytes walked through every PAIR of positions of the fixed-layout lengths
+		for _, L := range []int{116, 117, 132, 248, 249} {
+			L := L
+			jobs = append(jobs, Job{Name: fmt.Sprintf("decode-pairs-len-%d", L), Run: func(r *Run) {
+				for p := 0; p < L; p++ {
+					for q := p + 1; q < L; q++ {
+						for _, vv := range [][2]byte{{0xFF, 0x01}, {0x01, 0x80}} {
+							b := make([]byte, L)
+							b[p], b[q] = vv[0], vv[1]
+							kind := fmt.Sprintf("pair@%d=%02x,@%d=%02x", p, vv[0], q, vv[1])
+							r.States++
+							c16Safely(r, "message", kind, b, func() { c16CheckDecodeMessage(r, kind, b) })
+							c16Safely(r, "burn message", kind, b, func() { c16CheckDecodeBurn(r, kind, b) })
+						}
+					}
+				}
+				r.Distinct(fmt.Sprintf("pairs/%d", L))
+			}})
+		}
 	}
 	jobs = append(jobs, Job{Name: "encode-message", Run: func(r *Run) { c16EncodeMessage(r) }})
 	jobs = append(jobs, Job{Name: "encode-burn", Run: func(r *Run) { c16EncodeBurn(r) }})
